@@ -719,3 +719,21 @@ def check_cleanup_wired(ctx, why: str):
     ex = [ast.unparse(c.args[0]) for c in calls_in(rv.node) if callee_name(c) == "execute" and c.args]
     need = ["CREATE_OPTIONAL_STEP_TABLE", "CREATE_OPTIONAL_TO_BE_DELETED_TABLE", "UPDATE_OPTIONAL_STEPS", "SELECT_OPTIONAL_TO_BE_DELETED", "UPDATE_OPTIONAL_TO_BE_DELETED"]
     ctx.check(all(n in ex for n in need), rv.fq, "the revert executes all of its statements", f"missing: {[n for n in need if n not in ex]}: {why}", "five statements executed")
+
+
+def check_outputs_recorded_at_completion(ctx, why: str):
+    """Executor.execute_job records the hashes of the outputs of every run that reaches completion — successful, failed
+    or deferred alike — before the step is marked completed: a file the command wrote is then known as an output."""
+    fi = ctx.prog.func("executor.Executor.execute_job")
+    n = 0
+    for tr, st in flow.paths_of(fi):
+        mc = [k for k, e in enumerate(tr) if e[0] == "call" and e[1] == "step.mark_completed"]
+        if not mc:
+            continue
+        n += 1
+        upd = [k for k, e in enumerate(tr[:mc[0]]) if e[0] == "call" and e[1].endswith("update_file_hashes") and e[2].args and "out" in ast.unparse(e[2].args[0])]
+        if not upd:
+            tests = [(e[1], e[2]) for e in tr[:mc[0]] if e[0] == "test"][-4:]
+            ctx.bad(fi.fq, "the output hashes are recorded on every path that completes the step", f"a path (last tests {tests}) completes the step without recording what the command wrote: {why}", where=ctx.where_of(fi))
+            return
+    ctx.check(n > 0, fi.fq, "the output hashes are recorded on every path that completes the step", "no completing path found", f"{n} paths")
